@@ -190,7 +190,10 @@ void env_deallocate__pA_pE_ul (struct Alloc *a, Elem *p, unsigned long n)
 #define NOLIVE1(i) __CPROVER_assert (!(SAMEOBJ (WP[i], p) && LIVE (i)), "[C03] block given back while it still holds a live element");
   FORALLW (NOLIVE1)
   dealloc_calls++;
-  free (p);
+  /* deallocation as CBMC's own free () records it (one nondeterministically chosen freed object), without the library call:
+     measured 3x smaller formulas under DFCC; use-after-free still fails w_ok/r_ok and the pointer checks */
+  __CPROVER_assert (!SAMEOBJ (p, __CPROVER_deallocated), "[C04] block given back twice");
+  if (nondet_bool ()) __CPROVER_deallocated = p;
   if (p == WB) WBL = 0;
 }
 
@@ -250,17 +253,21 @@ static unsigned long range_assign (Elem *dst, const Elem *src, unsigned long n, 
   FORALLW (RA_LIVE)
   if (n != 0) used_kinds |= kind;
   _Bool threw; unsigned long done = pick_done (n, may_throw, &threw);
-  /* indices that were processed: forward [0, done), backward [n - done, n); the failing index gets an unspecified value */
-  unsigned long lo = backward ? n - done : 0, hi = backward ? n : done;
-  unsigned long bad = backward ? (n - done - 1) : done;     /* meaningful only if threw */
+  /* byte offsets (relative to the range start) that were processed: forward [0, done), backward [n - done, n);
+     the failing element gets an unspecified value */
+  unsigned long lo = (backward ? n - done : 0) << ESZ_LOG2, hi = (backward ? n : done) << ESZ_LOG2;
+  unsigned long bad = (backward ? (n - done - 1) : done) << ESZ_LOG2;     /* meaningful only if threw */
   int o0 = WS[0], o1 = WS[1], o2 = WS[2];
+#define BOFF(p, base) (OFF (p) - OFF (base))
+#define SRC_IS(j, i) (SAMEOBJ (WP[j], src) && OFF (WP[j]) >= OFF (src) && BOFF (WP[j], src) == BOFF (WP[i], dst))
 #define RA_NEW(i) \
-  if (IN_PTRS (WP[i], dst, dst_end) && IDX (WP[i], dst) >= lo && IDX (WP[i], dst) < hi) \
-    { int v = nondet_value (); unsigned long k = IDX (WP[i], dst); \
-      if (WP[0] == src + k) v = o0; if (WP[1] == src + k) v = o1; if (WP[2] == src + k) v = o2; \
+  if (IN_PTRS (WP[i], dst, dst_end) && BOFF (WP[i], dst) >= lo && BOFF (WP[i], dst) < hi) \
+    { int v = nondet_value (); \
+      if (SRC_IS (0, i)) v = o0; if (SRC_IS (1, i)) v = o1; if (SRC_IS (2, i)) v = o2; \
       WS[i] = v; } \
-  else if (threw && IN_PTRS (WP[i], dst, dst_end) && IDX (WP[i], dst) == bad) WS[i] = S_MF; \
-  else if (move && IN_PTRS (WP[i], src, src_end) && ((IDX (WP[i], src) >= lo && IDX (WP[i], src) < hi) || (threw && IDX (WP[i], src) == bad)) && !(WP[i] == dst + IDX (WP[i], src))) WS[i] = S_MF;
+  else if (threw && IN_PTRS (WP[i], dst, dst_end) && BOFF (WP[i], dst) == bad) WS[i] = S_MF; \
+  else if (move && IN_PTRS (WP[i], src, src_end) && ((BOFF (WP[i], src) >= lo && BOFF (WP[i], src) < hi) || (threw && BOFF (WP[i], src) == bad)) \
+           && !(SAMEOBJ (src, dst) && OFF (src) == OFF (dst))) WS[i] = S_MF;
   FORALLW (RA_NEW)
   if (threw) THROW (EXC_ELEMENT);
   return done;
